@@ -32,6 +32,7 @@ def groups(tier):
                  (('primitive', 'LessThan'), ('primitive', 'GreaterThan')), (('tilde', None), ('primitive', 'Exact'))]
     for (f1, o1), (f2, o2) in pairs:
         gs.append({'name': 'pair-%s%s+%s%s' % (f1, '-' + o1 if o1 else '', f2, '-' + o2 if o2 else ''), 'fn': pair_group, 'args': {'f1': f1, 'o1': o1, 'f2': f2, 'o2': o2, 'L': 1}})
+    gs.append({'name': 'native-corpus', 'fn': corpus_group, 'args': {'n': 500 if tier == 'quick' else 3000}})
     return gs
 
 
@@ -307,3 +308,103 @@ KNOWN = {
     'gte-zero-not-neutral': _witness('* <=0.0.0-a', '0.0.0-a', True),
     'lt-major-only': _witness('<1 <=1.0.0-beta', '1.0.0-beta', False),
 }
+
+
+# ---------------------------------------------------------------------------------------------- native spot check of the textual half
+def corpus_group(s, n=500):
+    """Sampling, not a solver verdict: range TEXTS generated from structured comparators (operators with blanks, `v` prefixes, leading
+    zeros, x / X / *, partial lengths, prerelease with and without hyphen, tilde / ~>, caret, hyphen ranges, space-joined lists, `||`,
+    dropped garbage tokens) are parsed natively and their satisfies() answers compared with O-npm's Python twin."""
+    import random
+    rng = random.Random(s.seed * 1009 + 5)
+    nums = [0, 1, 2, 3, 10]
+    pres = [[], [], [{'s': 'alpha'}], [{'n': 0}], [{'s': 'beta'}, {'n': 2}]]
+
+    def partial():
+        shape = rng.choice(['n', 'nn', 'nnn', 'nnn', 'nnn', 'x', 'nx', 'nnx', 'nxx'])
+        comp = [rng.choice(nums) if c == 'n' else None for c in shape] + [None] * (3 - len(shape))
+        pre = rng.choice(pres) if shape == 'nnn' else []
+        return {'M': comp[0], 'm': comp[1], 'p': comp[2], 'pre': pre, 'len': len(shape)}
+
+    def ptext(p):
+        out = []
+        for i, k in enumerate(('M', 'm', 'p')):
+            if i >= p['len']:
+                break
+            v = p[k]
+            out.append(rng.choice(['x', 'X', '*']) if v is None else (rng.choice(['', '0', '00']) + str(v)))
+        t = rng.choice(['', '', '', 'v']) + '.'.join(out)
+        if p['pre']:
+            ids = '.'.join(str(i['n']) if 'n' in i else i['s'] for i in p['pre'])
+            t += ('' if ('s' in p['pre'][0] and rng.random() < 0.25) else '-') + ids
+        if p['len'] == 3 and p['p'] is not None and rng.random() < 0.15:
+            t += '+build.7'
+        return t
+
+    def comparator():
+        form = rng.choice(['primitive', 'primitive', 'primitive', 'partial', 'tilde', 'tilde-gt', 'caret'])
+        p = partial()
+        if form == 'primitive':
+            op = rng.choice(OPS)
+            return ('primitive', op, [p]), OPTXT[op] + rng.choice(['', '', ' ', '  ']) + ptext(p)
+        if form == 'partial':
+            return ('partial', None, [p]), ptext(p)
+        if form == 'tilde':
+            return ('tilde', None, [p]), '~' + rng.choice(['', ' ']) + ptext(p)
+        if form == 'tilde-gt':
+            return ('tilde', None, [p]), '~>' + rng.choice(['', ' ']) + ptext(p)
+        return ('caret', None, [p]), '^' + rng.choice(['', ' ']) + ptext(p)
+
+    def alternative():
+        if rng.random() < 0.2:
+            a, b = partial(), partial()
+            return [('hyphen', None, [a, b])], ptext(a) + ' - ' + ptext(b)
+        comps, texts = [], []
+        for _ in range(rng.choice([1, 1, 2, 2, 3])):
+            c, t = comparator()
+            comps.append(c)
+            texts.append(t)
+            if rng.random() < 0.15:
+                texts.insert(rng.randrange(len(texts) + 1), rng.choice(['foo', '1.y', 'bar!']))
+        return comps, rng.choice([' ', ' ', '  ']).join(texts)
+    probes = [{'major': a, 'minor': b, 'patch': c, 'pre': pre, 'build': []} for a in (0, 1, 2, 3, 10) for b in (0, 1, 2) for c in (0, 1, 3) for pre in ([], [{'s': 'alpha'}], [{'n': 0}], [{'s': 'beta'}, {'n': 2}], [{'s': 'rc'}])]
+    cases, prog = [], []
+    for i in range(n):
+        alts, texts = [], []
+        for _ in range(rng.choice([1, 1, 1, 2, 3])):
+            a, t = alternative()
+            alts.append(a)
+            texts.append(t)
+        text = rng.choice([' || ', '||', ' ||', '|| ']).join(texts)
+        vs = rng.sample(probes, 6)
+        cases.append((text, alts, vs))
+        prog.append({'id': 'r%d' % i, 'op': 'range', 'text': text})
+        for j, v in enumerate(vs):
+            prog.append(dict(rp.version_step('v%d_%d' % (i, j), {'major': v['major'], 'minor': v['minor'], 'patch': v['patch'], 'pre': [], 'build': []}, {}), pre=v['pre']))
+            prog.append({'id': 's%d_%d' % (i, j), 'op': 'satisfies', 'r': 'r%d' % i, 'v': 'v%d_%d' % (i, j)})
+    native = rp.run(s.binary, [prog], timeout=300)[0]
+    bad, n_eval, badprog = [], 0, []
+    for i, (text, alts, vs) in enumerate(cases):
+        R = native.get('r%d' % i) or {}
+        for j, v in enumerate(vs):
+            # stay outside the two open known findings (they are reported by their own witnesses)
+            if v['pre'] and (v['major'], v['minor'], v['patch']) == (0, 0, 0):
+                continue
+            if v['pre'] and v['minor'] == 0 and v['patch'] == 0 and any(c[0] == 'primitive' and c[1] == 'LessThan' and c[2][0]['M'] == v['major'] and c[2][0]['m'] is None for a in alts for c in a):
+                continue
+            want = False
+            for a in alts:
+                comps = []
+                for form, op, parts in a:
+                    comps += npm.py_comps(form, OPTXT.get(op), parts)
+                if npm.py_admits(comps, v):
+                    want = True
+            got = bool(native.get('s%d_%d' % (i, j))) if R.get('ok') else False
+            n_eval += 1
+            if got != want:
+                badprog.extend([{'id': 'r', 'op': 'range', 'text': text}] if not badprog else [])
+                bad.append('range %r (parsed: %s) vs %s: satisfies=%s, node-semver 7.5.4: %s' % (text, R.get('print', R.get('kind')), rp.version_text(v, {}) if not v['pre'] else '%d.%d.%d-%s' % (
+                    v['major'], v['minor'], v['patch'], '.'.join(str(x.get('n', x.get('s'))) for x in v['pre'])), got, want))
+    s.validated += n_eval
+    s.add(ob='native spot check of the textual half: %d generated range texts x 6 versions against O-npm (sampling; tokenisation is outside the solver claim)' % n, mode='native', solver_s=0.0, kind='prove',
+          verdict='violated' if bad else 'holds', detail='; '.join(bad[:3]), case={'texts': n, 'evaluations': n_eval, 'sample': [c[0] for c in cases[:5]]}, program=badprog or None, native=None)
